@@ -83,7 +83,8 @@ def special_exprs(xd, r, fr):
     out = [
         ("round2", "a", round(r["b"], 2)), ("round1", "a", round(r["b"])), ("abs", "a", abs(r["b"])),
         ("divmod", "a", divmod(r["b"], 3)), ("floor", "a", math.floor(r["b"])), ("ceil", "a", math.ceil(r["b"])),
-        ("trunc", "a", math.trunc(r["b"])), ("call_kw", "a", fr.g(r["b"], r["c"])),
+        ("trunc", "a", math.trunc(r["b"])), ("call_pos", "a", fr.g(r["b"], r["c"])), ("call_kw", "a", fr.g(r["b"], q=r["c"])),
+        ("call_kw2", "a", fr.g(q=r["b"], p=2)),
         ("neg", "a", -r["b"]), ("pos", "a", +r["b"]), ("invert", "a", ~r["b"]),
         ("nested", "a", r["n"].x + r["l"][0]), ("computed_key", "a", r["l"][r["c"] * 0]),
         ("literal", "a", R.LiteralExpr(7) + r["b"]), ("eq", "a", r["b"]._eq(r["c"])), ("ne", "a", r["b"]._neq(3)),
@@ -104,6 +105,8 @@ def ckey_targets(r):
             ("round2", lambda r: r["l"][round(r["c"], 2) * 0]), ("floor", lambda r: r["l"][_m.floor(r["c"]) * 0]),
             ("neg", lambda r: r["l"][(-r["c"]) * 0]), ("mul", lambda r: r["l"][r["c"] * 0]),
             ("call", lambda r: r["l"][r._manager.containers["f"].g(r["c"], r["b"]) * 0]),
+            ("call_kw", lambda r: r["l"][r._manager.containers["f"].g(r["c"], q=r["b"]) * 0]),
+            ("call_kw_lit", lambda r: r["l"][r._manager.containers["f"].g(q=1, p=r["c"]) * 0]),
             ("trunc_plain", lambda r: r["l"][_m.trunc(r["c"]) * 0 + 0])]
 
 
@@ -299,9 +302,9 @@ def cases(tier):
     out = []
     builds = ["pure"] if tier == "quick" else ["pure", "compiled"]
     for b in builds:
-        for i in range(60):
+        for i in range(72):
             out.append({"mode": "class", "build": b, "idx": i})
-        for i in range(8):
+        for i in range(12):
             out.append({"mode": "ckey", "build": b, "idx": i})
         cand = [(t, dsc) for t in LOCS for dsc in U.candidates(t, LOCS, False)]
         maxd = 2 if tier == "quick" else 3
